@@ -192,7 +192,9 @@ theorem parse_serialize (i : Info) (wf : i.wf = true) : parseInfo (serializeInfo
     simp only [Info.wf, Bool.and_eq_true] at wf; exact wf.2
   simp [parseInfo, readInfo_serializeInfo i hn, wf]
 
-/-- the model parser accepts exactly the texts `serializeInfo` writes (so it never invents a value) -/
+/-- `parseInfo` is DEFINED as "read the shape, then check that re-serialising gives the input": this lemma only
+restates that definition (it says nothing about encoding/json and is not a headline result); the content of the
+round trip is `parse_serialize` (via `readInfo_serializeInfo`) and the byte-for-byte tie to `Serialize`. -/
 theorem parse_sound (s : List Char) (i : Info) (h : parseInfo s = some i) :
     serializeInfo i = s ∧ i.wf = true := by
   unfold parseInfo at h
@@ -219,7 +221,8 @@ theorem deserialize_serialize (mi : MetaInfo) (g : GoodMI sha1 mi) :
     simp only at hd hh hwf hname
     simp [deserialize, parse_serialize info hwf, hname, hd, hh]
 
-/-- whatever `DeserializeMetaInfo` accepts is a good metainfo whose serialisation is the input -/
+/-- consequence of the definition of `parseInfo` (see `parse_sound`): whatever the MODEL's deserialize accepts is a
+good metainfo whose serialisation is the input.  Not a statement about the Go decoder. -/
 theorem deserialize_good (s : List Char) (mi : MetaInfo) (h : deserialize sha1 s = .ok mi) :
     GoodMI sha1 mi ∧ serializeInfo mi.info = s := by
   unfold deserialize at h
